@@ -148,12 +148,18 @@ def source(d, lang, name, ill=None):
     for p in d["pars"]:
         lim = "[%s, %s]" % tuple(("inf" if v == "inf" else "-inf" if v == "-inf" else repr(v)) for v in p["limits"])
         rows.append('    ["%s", "%s", %r, %s, "%s", "generated"],' % (p["name"], p["units"], p["default"], lim, p["type"]))
+    if d.get("oriented"):
+        for ang in ("theta", "phi"):
+            rows.append('    ["%s", "degrees", 0.0, [-360, 360], "orientation", "generated"],' % ang)
     out.append("parameters = [\n%s\n]\n" % "\n".join(rows))
     iq_pars = [p["name"].split("[")[0] for p in d["pars"] if p["type"] not in ("orientation",)]
     vol_pars = [p["name"].split("[")[0] for p in d["pars"] if p["type"] == "volume"]
     expr = " * ".join(render_factor(f, lang) for f in d["factors"])
     if lang == "c":
         out.append('Iq = "return %s;"\n' % expr)
+        if d.get("oriented"):
+            # axially symmetric 2-D intensity: the same expression at |q| times (1 + cos^2(angle to the axis)/2)
+            out.append('Iqac = "const double q = sqrt(qab*qab + qc*qc); return (%s)*(1.0 + 0.5*qc*qc/(q*q));"\n' % expr)
         if "volume" in d:
             out.append('form_volume = "return %s;"\n' % volume_expr(d, "c"))
             if "shell" in d:
@@ -197,7 +203,11 @@ def load(d, lang):
 
 @st.composite
 def cases(draw):
-    d = draw(definitions())
+    return draw(requests(draw(definitions())))
+
+
+@st.composite
+def requests(draw, d):
     names = []
     for p in d["pars"]:
         if "[" in p["name"]:
@@ -340,6 +350,51 @@ def check_pair(case, rec):
         rec.fail("py-vs-c:I:" + tag, msg)
 
 
+@st.composite
+def oriented_cases(draw):
+    """Compiled definitions with orientation parameters (a Python definition cannot share an Iqac)."""
+    d = draw(definitions())
+    d = dict(d, oriented=True, vectorized=False)
+    d.pop("valid", None)
+    case = draw(requests(d))
+    case["dim"] = "2d"
+    case.pop("q", None)
+    case["qx"], case["qy"] = draw(S.q2d(2, 4, lo=-2.3, hi=-0.7))
+    case["theta"] = S.sig(draw(st.one_of(st.sampled_from([0.0, 90.0, 30.0, -60.0, 180.0]), st.floats(-180, 180))), 6)
+    case["phi"] = S.sig(draw(st.one_of(st.sampled_from([0.0, 90.0, 45.0, -120.0]), st.floats(-180, 180))), 6)
+    return case
+
+
+def check_oriented(case, rec):
+    from sasmodels import direct_model
+    d = case["def"]
+    mc = load(d, "c")
+    qx, qy = np.array(case["qx"], float), np.array(case["qy"], float)
+    req = dict(case["pars"])
+    req.update(case["pd"])
+    has_modes = "reff" in d
+    mode = case["mode"] if has_modes else 0
+    qabc = refmath.particle_frame(qx, qy, case["theta"], case["phi"], 0.0)
+    qabs = np.sqrt(np.sum(qabc ** 2, axis=1))
+    aniso = 1.0 + 0.5 * qabc[:, 2] ** 2 / qabs ** 2
+    ref = direct_reference(d, mc.info, req, qabs, case["cutoff"], mode)
+    geom = c01.classify_mesh(ref["mesh"], req)
+    rec.cls("oriented", "geom:" + geom, "vector" if d["vec"] else "scalar-only")
+    rec.nontrivial(case["theta"] % 180 != 0 or case["phi"] % 180 != 0, case)
+    if geom == "empty":
+        rec.cls("empty-mesh-skipped")
+        rec.nt = False
+        return
+    full = dict(req, scale=case["scale"], background=case["background"], theta=case["theta"], phi=case["phi"])
+    k = mc.make_kernel([qx, qy])
+    I = np.asarray(direct_model.call_kernel(k, dict(full), cutoff=case["cutoff"]), float)
+    want = case["scale"] * ref["F2"] * aniso / ref["shell"] + case["background"]
+    sc = case["scale"] * (np.max(np.abs(ref["F2"] * aniso)) if np.any(np.isfinite(ref["F2"])) else 1.0) / abs(ref["shell"])
+    msg = c01.close(I - case["background"], want - case["background"], sc, 1e-10)
+    if msg:
+        rec.fail("c-vs-formula:I:2d-oriented:" + geom, msg)
+
+
 # ---------------------------------------------------------------------------
 # ill-formed definitions
 
@@ -393,7 +448,7 @@ def check_ill(case, rec):
     rec.fail("ill-formed-accepted:" + case["kind"], "definition loaded and built: %s" % table)
 
 
-CHECKS = {"pair": check_pair, "ill": check_ill}
+CHECKS = {"pair": check_pair, "ill": check_ill, "oriented": check_oriented}
 
 
 def plan(tier):
@@ -404,3 +459,4 @@ def run_shard(ctx, spec):
     quick = ctx.tier == "quick"
     ctx.explore("pair", cases(), 60 if quick else 2500, shrink_examples=40)
     ctx.explore("ill", ill_cases(), 14 if quick else 80, shrink_examples=8)
+    ctx.explore("oriented", oriented_cases(), 12 if quick else 300, shrink_examples=12, salt=3)
